@@ -17,7 +17,7 @@ subprocess.check_call(["git", "-C", "/repo", "worktree", "add", "-q", "--detach"
 out = {}
 try:
     demo_src = [f for f in os.listdir(src) if f not in ("patch.diff", "meta.json")]
-    place = meta["demo_place"]
+    place = meta["demo_place"].split()[0]
     dst = os.path.join(wt, place)
     os.makedirs(os.path.dirname(dst), exist_ok=True)
     # the demo is the single non-patch/non-meta file (or directory)
